@@ -55,6 +55,13 @@ def clear_registry():
     Variable._cache_.clear()
 
 
+def declare(K, conditioned):
+    """the queried variable, alone or under a condition every instance satisfies (the evaluation then goes through a comparator,
+    its caches and the truth-value bookkeeping; the answer is the same)"""
+    x = let(K)
+    return (x, x.f1 != 99) if conditioned else (x,)
+
+
 def run(case, tag):
     classes = make_classes(case['classes'], tag)
     clear_registry()
@@ -103,7 +110,7 @@ def run(case, tag):
                 from entity_query_language import the
                 from entity_query_language.failures import MultipleSolutionFound, NoSolutionFound
                 with symbolic_mode():
-                    q = the(entity(let(K)))
+                    q = the(entity(*declare(K, len(op) > 4 and op[4])))
                 try:
                     r = q.evaluate()
                     res = [idx.get(id(r), 'u')]
@@ -113,7 +120,7 @@ def run(case, tag):
                     res = []
             else:
                 with symbolic_mode():
-                    q = an(entity(let(K)))
+                    q = an(entity(*declare(K, len(op) > 4 and op[4])))
                 it = q.evaluate()
                 found = []
                 try:
@@ -128,7 +135,7 @@ def run(case, tag):
         elif k == 'query':
             K = classes[op[1]]
             with symbolic_mode():
-                q = an(entity(let(K)))
+                q = an(entity(*declare(K, len(op) > 2 and op[2])))
             found = list(q.evaluate())
             idx = {id(o): i for i, o in enumerate(log)}
             res = [idx.get(id(o), 'u') for o in found]
